@@ -82,6 +82,8 @@ type Result struct {
 	StepCap    bool
 	Foreign    int64
 	Stuck      []string
+	History    []Ev
+	Goroutines int
 }
 
 // Sim is the state of one run.
@@ -117,6 +119,9 @@ type Sim struct {
 
 	touch     map[any]int64
 	touchNext int64
+	seqNext   int64
+	evSeq     int64
+	history   []Ev
 
 	lockWriters map[any]int // pending writers per RWMutex
 	onStep      []func()
@@ -405,8 +410,8 @@ func Seq() int64 {
 	}
 	raceDisable()
 	s.mu.Lock()
-	s.touchNext++
-	v := s.touchNext
+	s.seqNext++
+	v := s.seqNext
 	s.mu.Unlock()
 	raceEnable()
 	return v
@@ -873,8 +878,26 @@ func Run(t *testing.T, cfg Config, main func()) (res Result) {
 		if r := recover(); r != nil {
 			msg := fmt.Sprint(r)
 			if strings.Contains(msg, "deadlock: main bubble goroutine has exited") {
+				if len(res.Violations) > 0 || res.StepCap {
+					// the run was aborted on purpose: goroutines are expected to be left behind
+					return
+				}
+				buf := make([]byte, 1<<20)
+				buf = buf[:runtime.Stack(buf, true)]
+				var left []string
+				for _, g := range strings.Split(string(buf), "\n\n") {
+					if strings.Contains(g, "synctest bubble") && !strings.Contains(g, "simrt.Run") {
+						if len(g) > 1500 {
+							g = g[:1500]
+						}
+						left = append(left, g)
+					}
+				}
+				if len(left) > 6 {
+					left = left[:6]
+				}
 				res.Violations = append(res.Violations, Violation{Property: "C40", Clause: "goroutine-leak",
-					Detail: "goroutines left blocked in the bubble after shutdown: " + msg})
+					Detail: "goroutines left blocked in the bubble after shutdown: " + msg + "\n" + strings.Join(left, "\n\n")})
 				return
 			}
 			panic(r)
@@ -928,6 +951,8 @@ func runInBubble(cfg Config, main func()) Result {
 		StepCap:    s.stepCap,
 		Foreign:    s.foreign,
 		Stuck:      s.stuck,
+		History:    s.history,
+		Goroutines: len(s.gs),
 	}
 	return res
 }
@@ -966,7 +991,6 @@ var stallDeltas = []time.Duration{
 func (s *Sim) loop() {
 	raceDisable()
 	defer raceEnable()
-	idleRounds := 0
 	for {
 		synctest.Wait()
 		s.mu.Lock()
@@ -998,19 +1022,14 @@ func (s *Sim) loop() {
 		elapsed := time.Since(s.start)
 		if len(parked) == 0 {
 			// nothing runnable: let the clock run to the next wake-up
-			if elapsed >= s.cfg.Horizon || idleRounds > 64 {
+			if elapsed >= s.cfg.Horizon {
 				s.reportStuck(mainDone, lockWait)
 				s.aborted = true
 				return
 			}
-			before := time.Now()
 			s.idle(s.cfg.Horizon - elapsed)
-			if time.Since(before) >= s.cfg.Horizon-elapsed {
-				idleRounds = 1000
-			}
 			continue
 		}
-		idleRounds = 0
 		s.step++
 		// choose: index into parked, or len(parked) = stall
 		n := len(parked)
